@@ -863,7 +863,10 @@ def l12(e: Engine, rep: Report, rule: str = 'L12'):
             n += 1
             rep.evaluations += 1
             rep.functions.add(f.qname)
-            rep.check(f.name in ('kill', '__del__'), rule, f.qname,
+            own = {'kill', '__del__'}
+            if f.cls is not None:
+                own = common.owner_closure(e, f.cls.qname, own)
+            rep.check(f.name in own, rule, f.qname,
                       '`%s`' % ' '.join(ast.unparse(c).split())[:50],
                       '%s kills relay greenlets outside shutdown: a client '
                       'killed in the middle of a delivery (or with requests '
